@@ -83,3 +83,173 @@ pub fn main(args: &[String]) {
     }
     out.flush().unwrap();
 }
+
+// ---------------------------------------------------------------------------------------------------------------------
+// Concurrent mode (CachedRwLock_Trace.tla): every thread owns one clone of the same `Output`; in round k all threads log
+// the start of their k-th operation, meet at a spinning barrier, perform it at the same instant (connect of a fresh
+// sink, or send of a fresh value) and log its end.  Which sinks a send reached is read from the sinks afterwards.
+
+#[derive(Deserialize)]
+struct ConcInput {
+    /// programs[p][t] = operations ("connect" | "send") of thread t
+    programs: Vec<Vec<Vec<String>>>,
+    repeat: usize,
+    /// delay sweep: the thread that reaches hook point `delay_point` (60..63, in CachedRwLock) sleeps `delay_us`
+    #[serde(default)]
+    delay_point: u32,
+    #[serde(default)]
+    delay_us: u64,
+}
+
+struct ConcDelay {
+    point: u32,
+    us: u64,
+}
+impl nexosim::verif::Hooks for ConcDelay {
+    fn point(&self, id: u32, _a: usize, _b: usize) {
+        if id == self.point {
+            std::thread::sleep(std::time::Duration::from_micros(self.us));
+        }
+    }
+}
+
+struct SpinBarrier {
+    n: usize,
+    count: std::sync::atomic::AtomicUsize,
+    gen: std::sync::atomic::AtomicUsize,
+}
+impl SpinBarrier {
+    fn wait(&self) {
+        use std::sync::atomic::Ordering;
+        let g = self.gen.load(Ordering::Acquire);
+        if self.count.fetch_add(1, Ordering::AcqRel) + 1 == self.n {
+            self.count.store(0, Ordering::Relaxed);
+            self.gen.store(g + 1, Ordering::Release);
+        } else {
+            while self.gen.load(Ordering::Acquire) == g {
+                std::hint::spin_loop();
+            }
+        }
+    }
+}
+
+struct ConcLog {
+    events: Vec<serde_json::Value>,
+    next_id: u64,
+    next_val: u64,
+    sinks: Vec<(u64, EventBuffer<u64>)>,
+}
+
+fn conc_run(prog: &[Vec<String>], out: &mut impl Write) {
+    use std::sync::Mutex;
+    let names: Vec<String> = (0..prog.len()).map(|t| format!("t{}", t + 1)).collect();
+    let log = Arc::new(Mutex::new(ConcLog {
+        events: vec![json!({"ev": "reset", "clones": names})],
+        next_id: 1,
+        next_val: 1,
+        sinks: Vec::new(),
+    }));
+    let rounds = prog.iter().map(|p| p.len()).max().unwrap_or(0);
+    let barrier = Arc::new(SpinBarrier {
+        n: prog.len(),
+        count: std::sync::atomic::AtomicUsize::new(0),
+        gen: std::sync::atomic::AtomicUsize::new(0),
+    });
+    let first: Output<u64> = Output::new();
+    let mut hs = Vec::new();
+    for (t, ops) in prog.iter().enumerate() {
+        let (log, barrier, ops, name) = (log.clone(), barrier.clone(), ops.clone(), names[t].clone());
+        let mut port = first.clone();
+        hs.push(std::thread::spawn(move || {
+            for k in 0..rounds {
+                // start event (and the identity of the sink / value of this operation), under the log's lock
+                let mut sink = None;
+                let mut val = 0;
+                match ops.get(k).map(|s| s.as_str()) {
+                    Some("connect") => {
+                        let mut l = log.lock().unwrap();
+                        let id = l.next_id;
+                        l.next_id += 1;
+                        l.events.push(json!({"ev": "cs", "c": name, "id": id}));
+                        let s = EventBuffer::with_capacity(4096);
+                        sink = Some((id, s));
+                    }
+                    Some("send") => {
+                        let mut l = log.lock().unwrap();
+                        val = l.next_val;
+                        l.next_val += 1;
+                        l.events.push(json!({"ev": "ss", "c": name, "v": val}));
+                    }
+                    _ => {}
+                }
+                barrier.wait();
+                match ops.get(k).map(|s| s.as_str()) {
+                    Some("connect") => {
+                        let (_, s) = sink.as_ref().unwrap();
+                        port.connect_sink(s);
+                    }
+                    Some("send") => {
+                        let fut = port.send(val);
+                        let mut fut = std::pin::pin!(fut);
+                        block_on(fut.as_mut());
+                    }
+                    _ => {}
+                }
+                match ops.get(k).map(|s| s.as_str()) {
+                    Some("connect") => {
+                        let mut l = log.lock().unwrap();
+                        l.events.push(json!({"ev": "ce", "c": name}));
+                        l.sinks.push(sink.take().unwrap());
+                    }
+                    Some("send") => {
+                        log.lock().unwrap().events.push(json!({"ev": "se", "c": name, "v": val}));
+                    }
+                    _ => {}
+                }
+                barrier.wait();
+            }
+        }));
+    }
+    drop(first);
+    for h in hs {
+        h.join().unwrap();
+    }
+    let mut l = log.lock().unwrap();
+    // which sinks (by id, ascending) received each value
+    let mut got: Vec<(u64, Vec<u64>)> = Vec::new();
+    for (id, s) in l.sinks.iter_mut() {
+        got.push((*id, s.by_ref().collect()));
+    }
+    got.sort();
+    for e in l.events.iter_mut() {
+        if e["ev"] == "se" {
+            let v = e["v"].as_u64().unwrap();
+            let res: Vec<u64> = got.iter().filter(|(_, vs)| vs.contains(&v)).map(|(id, _)| *id).collect();
+            // a value delivered twice to one sink would be a duplicate delivery
+            let dup = got.iter().any(|(_, vs)| vs.iter().filter(|x| **x == v).count() > 1);
+            e["res"] = json!(res);
+            e["dup"] = json!(dup);
+        }
+    }
+    for e in l.events.iter() {
+        writeln!(out, "{}", e).unwrap();
+    }
+}
+
+pub fn conc_main(args: &[String]) {
+    let inp: ConcInput =
+        serde_json::from_reader(std::io::BufReader::new(std::fs::File::open(&args[0]).expect("input"))).expect("json");
+    let mut out = std::io::BufWriter::new(std::fs::File::create(&args[1]).expect("output"));
+    if inp.delay_point != 0 {
+        nexosim::verif::install(Some(Arc::new(ConcDelay { point: inp.delay_point, us: inp.delay_us })));
+    } else {
+        nexosim::verif::install(None);
+    }
+    for p in inp.programs.iter() {
+        for _ in 0..inp.repeat {
+            conc_run(p, &mut out);
+        }
+    }
+    nexosim::verif::install(None);
+    out.flush().unwrap();
+}
